@@ -1148,6 +1148,18 @@ class RpcServer:
         # the outer one handles streaming errors.  Only one access log fires per call.
         try:
             result: Stream[StreamState, Any] = getattr(self._impl, info.name)(**kwargs)
+            # Anything wrong with what the method returned — not a Stream, or a
+            # declared header that is missing or cannot be serialized — is the
+            # method's error too, and must be answered as one: raised past this
+            # guard it would end the serve loop with the client still waiting.
+            output_schema = result.output_schema
+            input_schema = result.input_schema
+            state = result.state
+            if info.header_type is not None:
+                # Write header IPC stream before the main output stream
+                _write_stream_header(
+                    transport.writer, result.header, self._external_config, sink=sink, method_name=info.name
+                )
         except Exception as exc:
             _hook_exc = exc
             status = "error"
@@ -1180,16 +1192,7 @@ class RpcServer:
                     except Exception:
                         _logger.debug("Dispatch hook end failed", exc_info=True)
 
-        output_schema = result.output_schema
-        input_schema = result.input_schema
-        state = result.state
         cancelled = False
-
-        # Write header IPC stream before the main output stream
-        if info.header_type is not None:
-            _write_stream_header(
-                transport.writer, result.header, self._external_config, sink=sink, method_name=info.name
-            )
 
         input_reader = ValidatedReader(ipc.open_stream(transport.reader), self._ipc_validation)
 
